@@ -99,6 +99,9 @@ func runOne(t *testing.T, prop string, verifSeed uint64, idx int, src map[string
 	if prop == "C18" {
 		return runAging(t, prop, verifSeed, idx, src)
 	}
+	if prop == "C20" {
+		return runPeers(t, prop, verifSeed, idx, src)
+	}
 	res := &kernel.Result{World: "stall", Prop: prop, Variant: "asm-go1.26", VerifSeed: verifSeed, Idx: idx}
 	res.RunSeed = kernel.RunSeed(verifSeed, "stall", idx)
 	var tp *kernel.Tape
@@ -416,6 +419,184 @@ func runAging(t *testing.T, prop string, verifSeed uint64, idx int, src map[stri
 	return res
 }
 
+// abandon is set by TestStallWorld: it writes one result and ends the
+// process with exit code 3 (a bubble that can no longer make progress
+// cannot be left in any other way).
+var abandon func(res *kernel.Result)
+
+// runPeers: a caller that is stuck in its own entropy reader must not hold up
+// anybody else (C20: "each call returns the same result it would return when
+// run alone").  Caller A signs with a reader that stalls for 1000 h of
+// simulated time; while A is parked there, caller B performs one operation
+// with its own objects or with the same key, and must come back with the
+// result it has when it runs alone.
+func runPeers(t *testing.T, prop string, verifSeed uint64, idx int, src map[string][]kernel.Choice) (out *kernel.Result) {
+	res := &kernel.Result{World: "stall", Prop: prop, Variant: "asm-go1.26", VerifSeed: verifSeed, Idx: idx}
+	res.RunSeed = kernel.RunSeed(verifSeed, "stall", idx)
+	var tp *kernel.Tape
+	if src != nil {
+		tp = kernel.NewReplayTape(res.RunSeed, src)
+	} else {
+		tp = kernel.NewTape(res.RunSeed)
+	}
+	run := kernel.NewRun(tp, res, true)
+	start := time.Now()
+	defer func() {
+		if e := recover(); e != nil {
+			stack := string(debug.Stack())
+			if fn, inLib := kernel.PanicOrigin(stack); inLib {
+				run.Violate(prop, "library-panic", fn, 0, "a library call with valid arguments panicked: %v (raised in %s)\n%s", e, fn, stack)
+			} else {
+				run.Violate("HARNESS", "harness-panic", "stall", 0, "%v\n%s", e, stack)
+			}
+			run.Finish()
+			res.Tape = tp.Record()
+			out = res
+		}
+	}()
+	dA := new(big.Int).Add(big.NewInt(1), new(big.Int).Mod(ref.OS2IP(tp.Bytes("fixture", "keyA", 32)), new(big.Int).Sub(ref.N, big.NewInt(1))))
+	dB := new(big.Int).Add(big.NewInt(1), new(big.Int).Mod(ref.OS2IP(tp.Bytes("fixture", "keyB", 32)), new(big.Int).Sub(ref.N, big.NewInt(1))))
+	digest := tp.Bytes("ops", "digest", 32)
+	sameKey := tp.Chance("ops", "same_key", 1, 3)
+	aSchnorr := tp.Chance("ops", "a.schnorr", 1, 3)
+	devA := &stalledDevice{seed: tp.U64("ops", "devA.seed"), deliver: tp.Choose("ops", "devA.deliver", 32), chunk: []int{0, 1, 7}[tp.Choose("ops", "devA.chunk", 3)], stall: 1000 * time.Hour}
+	bKind := tp.Choose("ops", "b.kind", 6)
+	bSeed := tp.U64("ops", "devB.seed")
+	bNames := []string{"ECDSA Sign(own reader)", "Schnorr Sign(own reader)", "ECDSA Sign(RFC 6979)", "Verify", "ECDH", "NewPrivateKey+PublicKey"}
+	run.Hist("A: key=%x schnorr=%v reader delivers %d bytes (reads of at most %d) and stalls; B: %s same_key=%v key=%x digest=%x", ref.I2OSP32(dA), aSchnorr, devA.deliver, devA.chunk, bNames[bKind], sameKey, ref.I2OSP32(dB), digest)
+	run.Fault("peer_stalled_in_its_entropy_reader")
+	run.Res.Ops = 2
+
+	privA, err := secec.NewPrivateKey(ref.I2OSP32(dA))
+	if err != nil {
+		panic(fmt.Sprintf("fixture: %v", err))
+	}
+	privB := privA
+	if !sameKey {
+		if privB, err = secec.NewPrivateKey(ref.I2OSP32(dB)); err != nil {
+			panic(fmt.Sprintf("fixture: %v", err))
+		}
+	}
+	sprivA, sprivB := bitcoin.NewSchnorrPrivateKeyFromECDSA(privA), bitcoin.NewSchnorrPrivateKeyFromECDSA(privB)
+	fixedSig, _ := privB.Sign(secec.RFC6979SHA256(), digest, nil)
+	opB := func() string {
+		switch bKind {
+		case 0:
+			sig, err := privB.Sign(bytes.NewReader(kernel.Expand(bSeed, 64)), digest, nil)
+			return fmt.Sprintf("%x/%v", sig, err)
+		case 1:
+			sig, err := sprivB.Sign(bytes.NewReader(kernel.Expand(bSeed, 64)), digest, nil)
+			return fmt.Sprintf("%x/%v", sig, err)
+		case 2:
+			sig, err := privB.Sign(secec.RFC6979SHA256(), digest, nil)
+			return fmt.Sprintf("%x/%v", sig, err)
+		case 3:
+			return fmt.Sprint(privB.PublicKey().Verify(digest, fixedSig, nil))
+		case 4:
+			sh, err := privB.ECDH(privA.PublicKey())
+			return fmt.Sprintf("%x/%v", sh, err)
+		}
+		k, err := secec.NewPrivateKey(ref.I2OSP32(dB))
+		if err != nil {
+			return "err"
+		}
+		return fmt.Sprintf("%x", k.PublicKey().CompressedBytes())
+	}
+	want := opB() // alone, outside any bubble
+
+	// A bubble in which B is blocked on something that is not a timer or a
+	// channel (a mutex held by the parked A) never becomes quiescent and
+	// cannot be left: a real-time watchdog reports it and ends the process.
+	finished := make(chan struct{})
+	go func() {
+		select {
+		case <-finished:
+		case <-time.After(10 * time.Second): // real time: started outside the bubble
+			run.Hist("-> B has not come back after 10 s of real time while A is parked in its reader")
+			run.Violate(prop, "held-up-by-a-stalled-peer", bNames[bKind], 2, "caller B (%s, same key: %v) did not return while caller A was parked in its own entropy reader (%d of 32 bytes delivered, stalling): run alone, B returns %s at once. A caller's reader is the caller's business; nothing another caller needs may be held while it runs", bNames[bKind], sameKey, devA.delivered, want)
+			run.Finish()
+			res.Tape = tp.Record()
+			res.WallUS = time.Since(start).Microseconds()
+			if abandon != nil {
+				abandon(res)
+			}
+		}
+	}()
+	var got string
+	var bBack, aBackEarly bool
+	var bubblePanic string
+	func() {
+		defer func() {
+			if e := recover(); e != nil {
+				if s := fmt.Sprint(e); strings.Contains(s, "deadlock: main bubble goroutine has exited") {
+					bubblePanic = s
+					return
+				}
+				panic(e)
+			}
+		}()
+		synctest.Test(t, func(t *testing.T) {
+			aDone := make(chan struct{})
+			go func() {
+				defer close(aDone)
+				defer func() { _ = recover() }()
+				if aSchnorr {
+					_, _ = sprivA.Sign(devA, digest, nil)
+				} else {
+					_, _ = privA.Sign(devA, digest, nil)
+				}
+			}()
+			time.Sleep(time.Millisecond)
+			synctest.Wait() // A is parked in its reader now
+			select {
+			case <-aDone:
+				aBackEarly = true
+			default:
+			}
+			bDone := make(chan string, 1)
+			go func() { bDone <- opB() }()
+			time.Sleep(time.Second) // simulated
+			synctest.Wait()
+			select {
+			case got = <-bDone:
+				bBack = true
+			default:
+			}
+			// let A's reader give up so that the bubble can end
+			time.Sleep(devA.stall + time.Second)
+			synctest.Wait()
+			if !bBack {
+				select {
+				case got = <-bDone:
+				default:
+				}
+			}
+		})
+	}()
+	close(finished)
+	if bubblePanic != "" {
+		run.Probe("goroutines_left_blocked_at_end_of_bubble")
+	}
+	if aBackEarly {
+		run.Probe("stalled_caller_came_back_early") // C09's business (stall world, C09 mode)
+	}
+	run.Hist("-> B came back while A was parked: %v; B returned %s", bBack, got)
+	switch {
+	case !bBack:
+		run.Violate(prop, "held-up-by-a-stalled-peer", bNames[bKind], 2, "caller B (%s, same key: %v) was still waiting one simulated second after it started, while caller A was parked in its own entropy reader; it came back only when A's reader gave up (%s). Run alone, B returns %s at once", bNames[bKind], sameKey, got, want)
+	case got != want:
+		run.Violate(prop, "result-differs-from-solo-run", bNames[bKind], 2, "caller B (%s, same key: %v) returned %s while caller A was parked in its entropy reader; run alone it returns %s", bNames[bKind], sameKey, got, want)
+	default:
+		run.Probe("peer_unaffected_by_stalled_caller")
+	}
+	run.Res.Steps = int((devA.stall + 2*time.Second) / time.Millisecond)
+	run.Finish()
+	res.WallUS = time.Since(start).Microseconds()
+	res.Tape = tp.Record()
+	res.Sig = fmt.Sprintf("peers/%d/%v/%v/%d", bKind, sameKey, aSchnorr, devA.deliver)
+	return res
+}
+
 func envInt(name string, def int) int {
 	if n, err := strconv.Atoi(os.Getenv(name)); err == nil {
 		return n
@@ -432,6 +613,11 @@ func TestStallWorld(t *testing.T) {
 	out := bufio.NewWriter(os.Stdout)
 	defer out.Flush()
 	enc := json.NewEncoder(out)
+	abandon = func(res *kernel.Result) {
+		_ = enc.Encode(res)
+		out.Flush()
+		os.Exit(3)
+	}
 	prop := os.Getenv("VERIF_STALL_PROP")
 	if path := os.Getenv("VERIF_STALL_REPLAY"); path != "" {
 		rf, err := replay.Load(path)
